@@ -33,7 +33,24 @@ def universe(env):
     xyz = m.Plus(x, y, z)
     xc = m.Plus(x, m.Int(1))
     sh = m.LT(xc, m.Times(y, m.Int(2)))
+    # one formula per TheoryOracle / type-checker handler class over the SAME leaves (their memo entries are shared with the calls
+    # under test): mixed-sort predicate, Boolean-only array value, bit-vector and string operators, ite, quantifier, division
+    pxb = m.Symbol("pxb", tm.FunctionType(T.BOOL, [T.INT, T.BOOL]))
+    gb = m.Symbol("gb", tm.FunctionType(T.INT, [T.BOOL, T.INT]))
+    bv = m.Symbol("bv", tm.BVType(4))
+    arr = m.Symbol("arr", tm.ArrayType(T.INT, T.INT))
+    handlers = [
+        m.Function(pxb, [x, a]), m.Equals(m.Function(gb, [b, y]), z), m.Function(pxb, [xyz, m.TRUE()]),
+        m.Equals(m.Array(T.BOOL, m.TRUE(), {m.FALSE(): m.FALSE()}), m.Array(T.BOOL, m.FALSE())),
+        m.Equals(m.Select(m.Array(T.INT, x, {m.Int(1): y}), z), x), m.Equals(m.Select(arr, x), m.Select(m.Store(arr, y, z), x)),
+        m.BVULT(bv, m.BVAdd(bv, m.BV(1, 4))), m.Equals(m.BVToNatural(bv), x), m.Equals(m.BVToNatural(m.Ite(a, bv, m.BVNot(bv))), y),
+        m.Equals(m.StrLength(s), x), m.Equals(m.StrIndexOf(s, t, y), z), m.Equals(m.IntToStr(x), s), m.StrContains(m.IntToStr(y), t),
+        m.Equals(m.Ite(a, x, y), z), m.Iff(a, m.LT(x, y)), m.LT(m.Times(x, y), z), m.LT(m.Div(x, m.Int(2)), y), m.LT(m.Div(x, y), z),
+        m.LT(m.ToReal(x), r), m.LT(m.Pow(r, m.Real(2)), r), m.ForAll([x], m.LT(x, y)), m.Exists([a], m.Or(a, b)),
+        m.Not(a), m.And(a, m.Not(b)), m.Implies(b, a), m.Equals(m.Minus(x, y), z), m.LE(m.Plus(x, m.Int(1)), y),
+    ]
     U = {
+        "handlers": handlers,
         "strlen": m.Equals(m.StrLength(m.IntToStr(xyz)), m.Int(1)),
         "sum": m.LE(xyz, m.Int(0)),
         "toint": m.LT(m.Int(0), m.StrToInt(s)),
@@ -53,17 +70,28 @@ def pre_calls(env, U):
     """pool of earlier calls (their results are irrelevant)"""
     from pysmt.oracles import get_logic
     m = env.formula_manager
+    def quiet(thunk):
+        try:
+            return thunk()
+        except Exception:
+            return None
+    from pysmt import typing as T
+    H = U["handlers"]
+    real_sym = m.Symbol("r", T.REAL)
     return [
-        lambda: get_logic(U["strlen"], env),
-        lambda: get_logic(U["toint"], env),
-        lambda: (U["f1"].simplify(), U["f3"].simplify()),
-        lambda: (U["f2"].get_free_variables(), U["f1"].get_atoms()),
+        lambda: (get_logic(U["strlen"], env), [quiet(lambda h=h: get_logic(h, env)) for h in H[0::3]]),
+        lambda: (get_logic(U["toint"], env), [quiet(lambda h=h: env.theoryo.get_theory(h)) for h in H[1::3]]),
+        lambda: (U["f1"].simplify(), U["f3"].simplify(), [quiet(lambda h=h: h.simplify()) for h in H[2::3]]),
+        lambda: (U["f2"].get_free_variables(), U["f1"].get_atoms(), [quiet(lambda h=h: (h.get_atoms(), h.get_free_variables())) for h in H[0::2]]),
         lambda: (U["f3"].size(0), U["f3"].size(1), U["f1"].size(5)),
-        lambda: U["f1"].substitute({U["x"]: U["y"]}),
+        # a successful substitution followed by one that FAILS half-way (ill-sorted value): also a way of having used the environment
+        lambda: (U["f1"].substitute({U["x"]: U["y"]}), quiet(lambda: U["f1"].substitute({U["z"]: U["y"], U["x"]: real_sym})),
+                 quiet(lambda: U["f2"].substitute({U["a"]: U["b"], U["z"]: real_sym}))),
         lambda: (env.theoryo.get_theory(U["xyz"]), env.theoryo.get_theory(U["sh"]), env.qfo.is_qf(U["f2"])),
         lambda: (U["f4"].to_smtlib(), U["f2"].serialize(), env.typeso.get_types(U["f1"])),
-        lambda: get_logic(U["mixed"], env),
-        lambda: (get_logic(U["f2"], env), U["f4"].simplify(), m.And(U["sh"], U["a"]).get_type()),
+        lambda: (get_logic(U["mixed"], env), [quiet(lambda h=h: (get_logic(h, env), env.typeso.get_types(h))) for h in H[2::3]]),
+        lambda: (get_logic(U["f2"], env), U["f4"].simplify(), m.And(U["sh"], U["a"]).get_type(),
+                 [quiet(lambda h=h: (env.qfo.is_qf(h), h.size())) for h in H[1::2]]),
     ]
 
 
@@ -78,6 +106,9 @@ def calls_under_test(env, U):
         "theory-contains": (lambda: str(env.theoryo.get_theory(U["contains"])), False),
         "theory-sum": (lambda: str(env.theoryo.get_theory(U["sum"])), False),
         "theory-xyz": (lambda: str(env.theoryo.get_theory(U["xyz"])), False),
+        "theory-leaves": (lambda: [str(env.theoryo.get_theory(U[k])) for k in ("x", "y", "a", "b", "s", "xc", "sh")] +
+                          [str(env.theoryo.get_theory(m.TRUE())), str(env.theoryo.get_theory(m.Int(1))),
+                           str(get_logic(m.LT(U["x"], U["y"]), env)), str(get_logic(m.And(U["a"], U["b"]), env))], False),
         "simplify-f1": (lambda: U["f1"].simplify(), True),
         "simplify-f3": (lambda: U["f3"].simplify(), True),
         "substitute-f1": (lambda: U["f1"].substitute({U["x"]: U["z"], U["a"]: U["b"]}), True),
@@ -201,6 +232,6 @@ def h_step_twin(m0: bool, m1: bool, m2: bool, m3: bool, m4: bool, m5: bool, m6: 
     return step_body(m0, m1, m2, m3, m4, m5, m6, m7, m8, m9, True)
 
 
-CALLS = ["logic-sum", "logic-idl", "theory-contains", "theory-sum", "theory-xyz", "simplify-f1", "simplify-f3", "substitute-f1",
+CALLS = ["logic-sum", "logic-idl", "theory-contains", "theory-sum", "theory-xyz", "theory-leaves", "simplify-f1", "simplify-f3", "substitute-f1",
          "substitute-f2", "freevars-f2", "atoms-f1", "size-f3-0", "size-f3-1", "size-f3-3", "size-f4-default", "size-f1-default", "types-f1", "type-sh", "print-f4",
          "hr-f2", "parse", "nnf-f2", "cnf-f4", "prenex-f2", "qf-f2"]
